@@ -33,11 +33,13 @@ open Upnp.Gen
 /-- the entity table `_format_request_args` hands to `escape` sends CR as a character reference -/
 theorem escape_table_pin : C06Types.escapeExtra = crTable := by decide
 
-/-- every row of `STATE_VARIABLE_TYPE_MAPPING` has an `out` coercer whose result its `in` coercer
-    decodes (integers through `str(int(v))`, booleans `1`/`0` with `1` accepted and `0` not,
-    dates/times by the `isoformat` call that exists for their class — `time.tz` included since the
-    repair of F08a). -/
-theorem type_table_sound : ∀ row ∈ C06Types.table, rowSound row = true := by decide
+/-- the type table is C08's generated table (`Gen.C08Types`): every one of its 26 rows has one of
+    the coercer shapes C08 proves to round-trip (`C08.rows_good`), and its regex / strptime table and
+    tz guard are the ones C08's proofs are about (`C08.table_good`) — re-exported so that a change of
+    `const.py` / `utils.py` breaks an obligation of C06 too -/
+theorem type_table_sound :
+    (∀ row ∈ C08Types.rows, Upnp.C08.goodRow row = true) ∧ Upnp.C08.GoodTable C08Types.table :=
+  ⟨Upnp.C08.rows_good, Upnp.C08.table_good⟩
 
 /-- `create_request` writes the service type into `xmlns:u=` through `quoteattr` -/
 theorem ns_attr_pin : C06Types.nsAttrQuoted = true := by decide
@@ -48,9 +50,6 @@ theorem exc_hierarchy_pin :
     ∧ (genAnc "UpnpValueError").contains "UpnpError" = true := by decide
 
 /-! ### text level -/
-
-/-- `int(str(n)) == n` for every integer -/
-theorem int_roundtrip (n : Int) : pyInt? (decOfInt n) = some n := pyInt_decOfInt n
 
 /-- escaping loses nothing: an XML 1.0 parser (end-of-line normalisation, then references) reads
     back exactly the supplied text — for every string, including CR, CR LF, `<`, `>`, `&`, `]]>` -/
@@ -72,15 +71,24 @@ theorem ns_attr_lossless (st : Str) :
     ∃ (q : Char) (v : Str), (q = '"' ∨ q = '\'') ∧ quoteattr st = q :: v ++ [q] ∧ q ∉ v
       ∧ xmlDecodeAttr v = some st := quoteattr_spec st
 
-/-- every value the schema accepts is rendered to a text that the declared `in` coercion decodes
-    back to it (Python `==`; `bool ⊑ int`), and that text survives escaping -/
-theorem arg_text_decodes (O : Oracles) (strict : Bool) (d : VarDecl) (v : PyVal)
-    (hrow : rowSound d.row = true) (hacc : accepts O strict d v = some true) (hO : oracleOk O v) :
-    ∃ t, coerceUpnp d.row v = .ok t
-      ∧ xmlDecodeText (escape C06Types.escapeExtra t) = some t
-      ∧ decodesTo O d.row t v = true := by
-  obtain ⟨t, h1, h2⟩ := roundtrip O d.row v hrow (accepted_isInstance O strict d v hacc) hO
-  exact ⟨t, h1, escape_lossless t, h2⟩
+/-- **All 26 types.**  For every row of the generated type table and every in-domain value of the
+    row's class (C08's `rtDomain`), `coerce_upnp` renders the prescribed wire text (`C08.wire`), that
+    text survives escaping (`escape_lossless`), and the declared `in` coercion decodes it back to the
+    supplied value (for a `bool` under an integer type: to the integer equal to it).  No float /
+    date-time hypotheses any more: C08's `roundtrip_all_types` discharges them; the one assumption
+    left is C08's `RoundTrips` (`float(repr(x)) == x`). -/
+theorem arg_text_decodes (O : Oracles) (hf : Upnp.C08.FloatOps.RoundTrips O) (row : TypeRow)
+    (hrow : row ∈ C08Types.rows) (v : PyVal) (hv : Upnp.C08.rtDomain row.ty v = true) :
+    coerceUpnp O row v = .ok (Upnp.C08.wire O v)
+      ∧ xmlDecodeText (escape C06Types.escapeExtra (Upnp.C08.wire O v)) = some (Upnp.C08.wire O v)
+      ∧ coercePython O row (Upnp.C08.wire O v) = .ok (Upnp.C08.expectBack row.ty v)
+      ∧ decodesTo O row (Upnp.C08.wire O v) v = true := by
+  obtain ⟨h1, h2⟩ := Upnp.C08.roundtrip_all_types O hf row hrow v hv
+  refine ⟨h1, escape_lossless _, h2, ?_⟩
+  unfold decodesTo
+  show (match Upnp.C08.coercePython O C08Types.table row (Upnp.C08.wire O v) with
+        | .ok w => w == Upnp.C08.expectBack row.ty v | .error _ => false) = true
+  rw [h2]; simp
 
 /-! ### URL -/
 
@@ -108,7 +116,23 @@ theorem control_url_absolute (base ref : Str) (hb : (schemeOf base).isSome = tru
 
 /-! ### validation -/
 
-/-- the `vol.All` chain is the declarative acceptance predicate -/
+/-- "accepted" is C08's `accept_iff`: the factory-built schema passes a value iff it is of the
+    declared class, aware where the type demands it, a member of the allowed list and within the
+    declared bounds — where list and bounds are what the declaration's texts denote -/
+theorem accepts_iff (O : Oracles) (strict : Bool) (d : VarDecl) (v : PyVal) (sc : Upnp.C08.Schema Fl)
+    (h : schemaOf O strict d = some sc) :
+    accepts O strict d v = some true ↔
+      (v.isInstance d.row.ty = true
+      ∧ (d.row.requireTz = true → v.hasTz = some true)
+      ∧ (∀ l, sc.allowed = some l → ∃ a ∈ l, Upnp.C08.pyEq O v a = true)
+      ∧ (∀ m, sc.min = some m → Upnp.C08.pyLe O m v = some true)
+      ∧ (∀ m, sc.max = some m → Upnp.C08.pyLe O v m = some true)) := by
+  unfold accepts
+  rw [h]
+  simp only [Option.map_some, Option.some.injEq]
+  exact Upnp.C08.accept_iff O d.row.ty d.row.requireTz { min := sc.min, max := sc.max, allowed := sc.allowed } v
+
+/-- the schema the factory builds (`C08.mkSchema` / `Schema.check`) decides exactly that predicate -/
 theorem schema_is_accepts (O : Oracles) (strict : Bool) (d : VarDecl) (v : PyVal) :
     schemaOk O strict d v = accepts O strict d v := schemaOk_eq_accepts O strict d v
 
@@ -153,7 +177,7 @@ theorem c06_model_ok (O : Oracles) (anc : String → List String) (a : ActionDec
         rcases refusal_before_send O crTable true a kw H.url hacc with h | h <;>
           simp [h, modelObs, excInfo, ExcInfo.isLibraryError, Exc.tok, h1, h2]
       | true =>
-        obtain ⟨args, hc, hn, hok⟩ := coerceArgs_ok O a.strict kw a.inArgs hacc H.rows H.oracle
+        obtain ⟨args, hc, hn, hok⟩ := coerceArgs_ok O H.floats a.strict kw a.inArgs hacc H.domain
         have hv := validate_accepted O a.strict kw a.inArgs hacc
         have hnames : ∀ p ∈ args, nameOk p.1 = true := by
           intro p hp
@@ -242,10 +266,35 @@ theorem repeat_same (O : Oracles) (anc : String → List String) (a : ActionDecl
 
 section Example
 private def rowOf (n : String) : TypeRow :=
-  (C06Types.table.find? (·.name == n.toList)).getD ⟨[], .str, false, .str, .str⟩
+  (table.row? n.toList).getD ⟨[], .str, .str, .str, false⟩
+
+/-- a float carrier whose `repr` / `float()` are inverse by construction (unary numerals), so the
+    float assumption `RoundTrips` is satisfiable -/
+def exO : Oracles where
+  repr
+    | .nan => ['N']
+    | .inf n => [if n then 'I' else 'J']
+    | .fin n a b => (if n then '-' else '+') :: (List.replicate a 'a' ++ List.replicate b 'b')
+  parse
+    | 'N' :: _ => some .nan
+    | 'I' :: _ => some (.inf true)
+    | 'J' :: _ => some (.inf false)
+    | '-' :: r => some (.fin true (r.count 'a') (r.count 'b'))
+    | '+' :: r => some (.fin false (r.count 'a') (r.count 'b'))
+    | _ => none
+  le := Fl.le
+  eq := Fl.eq
+
+theorem exO_roundTrips : Upnp.C08.FloatOps.RoundTrips exO := by
+  intro x
+  cases x with
+  | nan => rfl
+  | inf n => cases n <;> rfl
+  | fin n a b =>
+    cases n <;> simp [exO, List.count_append, List.count_replicate]
 
 /-- SetVolume(InstanceID: ui4, Channel: string ∈ {Master, "a<b\r&"}, DesiredVolume: ui2 ∈ [0,100],
-    Mute: boolean) -> Old: ui2 -/
+    Mute: boolean, Since: dateTime.tz, Born: date) -> Old: ui2 -/
 private def exAction : ActionDecl :=
   { name := "SetVolume".toList,
     serviceType := "urn:acme&co:service:R\"C:1".toList,
@@ -253,16 +302,19 @@ private def exAction : ActionDecl :=
     controlUrl := "/ctl/rc".toList,
     args := [⟨"InstanceID".toList, true, { row := rowOf "ui4" }⟩,
              ⟨"Old".toList, false, { row := rowOf "ui2" }⟩,
-             ⟨"Channel".toList, true, { row := rowOf "string", allowed := some ["Master".toList, "a<b\r&".toList] }⟩,
+             ⟨"Channel".toList, true, { row := rowOf "string", decl := { allowed := some ["Master".toList, "a<b\r&".toList] } }⟩,
              ⟨"DesiredVolume".toList, true,
-                { row := rowOf "ui2", hasRange := true, min := some ['0'], max := some "100".toList }⟩,
-             ⟨"Mute".toList, true, { row := rowOf "boolean" }⟩] }
+                { row := rowOf "ui2", decl := { range := some (some ['0'], some "100".toList) } }⟩,
+             ⟨"Mute".toList, true, { row := rowOf "boolean" }⟩,
+             ⟨"Since".toList, true, { row := rowOf "dateTime.tz" }⟩,
+             ⟨"Born".toList, true, { row := rowOf "date" }⟩] }
 
-private def exO : Oracles := { parseFloat := fun _ => none, parseDt := fun _ => none }
-
-/-- caller order differs from declared order; `True` for an integer; markup and CR in a string -/
+/-- caller order differs from declared order; `True` for an integer; markup and CR in a string;
+    an aware date-time with a negative offset; a date before the year 1000 -/
 private def exKw : Kwargs :=
   [("Mute".toList, .bool false), ("DesiredVolume".toList, .int 100), ("InstanceID".toList, .bool true),
+   ("Born".toList, .date ⟨987, 2, 28⟩),
+   ("Since".toList, .datetime ⟨2024, 2, 29⟩ ⟨23, 59, 59⟩ (some (-330))),
    ("Channel".toList, .str "a<b\r&".toList)]
 
 /-- the hypotheses of `c06_model_ok` hold for a non-trivial action and assignment, the request is
@@ -272,30 +324,33 @@ example :
     ∧ allAccepted exO true exAction.inArgs exKw = some true
     ∧ (asyncCallSend exO C06Types.escapeExtra C06Types.nsAttrQuoted exAction exKw).1.map (fun r => (r.url, r.body)) =
         [("http://192.168.1.10:8080/ctl/rc".toList,
-          ("<?xml version=\"1.0\"?><s:Envelope s:encodingStyle=\"http://schemas.xmlsoap.org/soap/encoding/\"" ++
-           " xmlns:s=\"http://schemas.xmlsoap.org/soap/envelope/\"><s:Body>" ++
-           "<u:SetVolume xmlns:u='urn:acme&amp;co:service:R\"C:1'>" ++
-           "<InstanceID>1</InstanceID>\n<Channel>a&lt;b&#13;&amp;</Channel>\n<DesiredVolume>100</DesiredVolume>\n<Mute>0</Mute>" ++
-           "</u:SetVolume></s:Body></s:Envelope>").toList)]
-    ∧ asyncCallSend exO C06Types.escapeExtra C06Types.nsAttrQuoted exAction (("DesiredVolume".toList, .int 101) :: exKw)
-        = ([], some .upnpValueError)
-    ∧ asyncCallSend exO C06Types.escapeExtra C06Types.nsAttrQuoted exAction (exKw.drop 1) = ([], some .upnpError) := by
-  refine ⟨⟨by decide +kernel, by decide +kernel, by decide +kernel, by decide +kernel, ?_⟩, by decide +kernel, by decide +kernel, by rfl, by rfl⟩
-  intro d hd v hv
+          "<?xml version=\"1.0\"?><s:Envelope s:encodingStyle=\"http://schemas.xmlsoap.org/soap/encoding/\"".toList ++
+           " xmlns:s=\"http://schemas.xmlsoap.org/soap/envelope/\"><s:Body>".toList ++
+           "<u:SetVolume xmlns:u='urn:acme&amp;co:service:R\"C:1'>".toList ++
+           "<InstanceID>1</InstanceID>\n<Channel>a&lt;b&#13;&amp;</Channel>\n<DesiredVolume>100</DesiredVolume>\n<Mute>0</Mute>".toList ++
+           "\n<Since>2024-02-29T23:59:59-05:30</Since>\n<Born>0987-02-28</Born>".toList ++
+           "</u:SetVolume></s:Body></s:Envelope>".toList)]
+    ∧ (asyncCallSend exO C06Types.escapeExtra C06Types.nsAttrQuoted exAction (("DesiredVolume".toList, .int 101) :: exKw)).2
+        = some .upnpValueError
+    ∧ (asyncCallSend exO C06Types.escapeExtra C06Types.nsAttrQuoted exAction (exKw.drop 1)).2 = some .upnpError := by
+  refine ⟨⟨by decide +kernel, by decide +kernel, by decide +kernel, exO_roundTrips, ?_⟩,
+          by decide +kernel, by decide +kernel, by decide +kernel, by decide +kernel⟩
+  intro d hd
   have hnames : exAction.inArgs.map (·.name) =
-      ["InstanceID".toList, "Channel".toList, "DesiredVolume".toList, "Mute".toList] := by decide +kernel
-  have hd' : d.name ∈ exAction.inArgs.map (·.name) := List.mem_map.mpr ⟨d, hd, rfl⟩
-  rw [hnames] at hd'
-  simp only [List.mem_cons, List.not_mem_nil, or_false] at hd'
-  rcases hd' with h | h | h | h <;> rw [h] at hv
-  · have : exKw.lookup "InstanceID".toList = some (.bool true) := by decide +kernel
-    rw [this] at hv; cases hv; trivial
-  · have : exKw.lookup "Channel".toList = some (.str "a<b\r&".toList) := by decide +kernel
-    rw [this] at hv; cases hv; trivial
-  · have : exKw.lookup "DesiredVolume".toList = some (.int 100) := by decide +kernel
-    rw [this] at hv; cases hv; trivial
-  · have : exKw.lookup "Mute".toList = some (.bool false) := by decide +kernel
-    rw [this] at hv; cases hv; trivial
+      ["InstanceID".toList, "Channel".toList, "DesiredVolume".toList, "Mute".toList, "Since".toList, "Born".toList] := by
+    decide +kernel
+  have hrows : ∀ d ∈ exAction.inArgs, d.var.row ∈ C08Types.rows := by decide +kernel
+  refine ⟨hrows d hd, ?_⟩
+  have hall : ∀ d ∈ exAction.inArgs,
+      (match exKw.lookup d.name with
+       | some w => Upnp.C08.rtDomain d.var.row.ty w
+       | none => true) = true := by
+    decide +kernel
+  intro v hv
+  have := hall d hd
+  rw [hv] at this
+  exact this
 end Example
+
 
 end Upnp.C06
